@@ -177,6 +177,53 @@ def comparator_controls(chk, recs, fixtures, names, tier, seed):
                 "shifted mean accepted")
 
 
+def operand_integrity(chk, recs, fixtures, names, rng, n):
+    """Expressions are values: building a bigger expression from an already built one must not change
+    what the smaller one evaluates to (shared sub-expressions, the same object used twice).  In
+    spec/ObsExpr.tla built objects are immutable values by construction; here the real objects are
+    re-evaluated after being used as operands."""
+    import numpy as np
+    import obsexpr_replay as R
+    pool = [r for r in recs if r["fault"] == "none" and r["kind"] == "obs" and r["build"]["c"] != "Leaf"]
+    for i, rec in enumerate(rng.sample(pool, min(len(pool), n))):
+        fx = fixtures[i % len(fixtures)]
+        prng = __import__("random").Random(i)
+        A = R.evaluate(rec["e"], fx.leaves, R.POLICIES[i % len(R.POLICIES)], prng)
+        ref, scale = R.reference(rec, fx, names)
+        leaf = fx.leaves[names[i % len(names)]]
+        lv = fx.vals[names[i % len(names)]]
+        uses = [("A + 1.5", lambda: A + 1.5, ref + 1.5), ("A - leaf", lambda: A - leaf, ref - lv),
+                ("2 - A", lambda: 2 - A, 2 - ref), ("-A", lambda: -A, -ref), ("A * 3", lambda: A * 3, 3 * ref),
+                ("A + A", lambda: A + A, 2 * ref), ("2*A - (A + leaf)", lambda: 2 * A - (A + leaf), ref - lv),
+                ("(A + leaf) + (A + 2)", lambda: (A + leaf) + (A + 2), 2 * ref + lv + 2)]
+        built = []
+        for label, mk, want in uses:
+            chk.evaluations += 1
+            try:
+                obj = mk()
+                built.append((label, obj, want))
+                got = np.asarray(obj.apply(fx.state, fx.batch.clone()), dtype=np.float64)
+            except Exception as ex:          # noqa: BLE001
+                chk.violation("reuse:raised", dict(expr=R.show(rec["e"]), use=label, error=repr(ex), fixture=fx.desc))
+                break
+            tol = 1e-12 * (6 * scale + 8 + 2 * abs(lv))
+            if (abs(got - want) > tol).any():
+                chk.violation("reuse:composite-of-shared-operand", dict(expr=R.show(rec["e"]), use=label,
+                                                                       got=got.tolist()[:6], expected=want.tolist()[:6], fixture=fx.desc))
+            again = np.asarray(A.apply(fx.state, fx.batch.clone()), dtype=np.float64)
+            if (abs(again - ref) > 1e-12 * (scale + 1)).any():
+                chk.violation("reuse:operand-changed-by-use", dict(expr=R.show(rec["e"]), after=label,
+                                                                   got=again.tolist()[:6], expected=ref.tolist()[:6], fixture=fx.desc))
+                break
+        # earlier composites still evaluate to what they did
+        for label, obj, want in built:
+            got = np.asarray(obj.apply(fx.state, fx.batch.clone()), dtype=np.float64)
+            if (abs(got - want) > 1e-12 * (6 * scale + 8 + 2 * abs(lv))).any():
+                chk.violation("reuse:earlier-composite-changed", dict(expr=R.show(rec["e"]), use=label, fixture=fx.desc))
+                break
+        chk.nontriv(("reuse", i))
+
+
 def spec_controls(chk, names, variants):
     """Seeded faults inside the specification's model of the overloads: TLC must find them."""
     for v, inv in variants:
@@ -284,6 +331,8 @@ def run(tier, seed):
                 % (len(struct), d["expr"], json.dumps(d["got"]), json.dumps(d["record"]["build"])))
         chk.assumptions.append("operand order inside SumObservable differs from the specification's Build(e) in %d "
                                "replays (symmetric alternative, values agree), e.g. %s" % (len(drift), d["expr"]))
+
+    operand_integrity(chk, small, fx3, names3, rng, 120 if quick else 1500)
 
     # ---- negative controls (they presuppose a baseline that holds) -------------------
     if chk.violations:
